@@ -11,6 +11,7 @@ type Gen struct {
 	R        *lib.RNG
 	MaxDepth int  // tuple nesting
 	AllowOut bool // allow selected arrays inside tuples that are array elements
+	MinArr   int  // lower bound on the length of every dynamically sized array value
 	noSel    bool // (internal) nothing below may be selected
 	ncol     int
 	nname    int
@@ -178,6 +179,9 @@ func (g *Gen) Value(n *Node, maxArr int) *Val {
 			k = g.R.Intn(maxArr + 1)
 			if g.R.Chance(1, 5) {
 				k = 0
+			}
+			if k < g.MinArr {
+				k = g.MinArr
 			}
 		}
 		v := &Val{Elems: make([]*Val, k)}
